@@ -25,10 +25,21 @@ RULE = ("seeded random cases for each of the six tools (yaml-get, yaml-set, yaml
         "status and printed/written DATA equal (a) the library's own in-process answer (Processor / Merger+merge_docs / Differ / loader / "
         "search_for_paths on the same text) pushed through (b) the Lean model of the tool's control flow; file, '-' and implicit stdin "
         "deliveries give the same outcome; nothing but SystemExit escapes main(); a non-zero exit leaves the target file untouched.  "
+        "yaml-paths: 500 more cases run over documents given as YAML TEXT that reuse an anchored KEY through an alias in one to "
+        "three other mappings (nested, in list elements), with anchored values aliased under keys and in lists and ordinary keys / "
+        "values of the same names, x every alias option (none, -A, -Y, -y, -l and their long forms) x key-name mode (none, -k, -K, long "
+        "forms) x -a / -L / -m / -t; the oracle calls search_for_paths with the meaning of the IncludeAliases member the option NAMES "
+        "(finite table option -> member name -> (key aliases, value aliases); the member is looked up by name), and the table itself is "
+        "checked: IncludeAliases has exactly the four documented members, pairwise distinct.  "
+        "Dates as JSON (real tools only, 500 cases): documents from YAML text holding timestamps with UTC offsets (+-hh:mm, fractions, "
+        "T / t / space, anchored + aliased), naive timestamps and dates in maps / sequences / flow collections; yaml-get of a container "
+        "and of the scalar, yaml-merge -D json (stdout, -o file, lone file, RHS from '-'), yaml-set on a JSON-style document (*.json file "
+        "and '-'): every such scalar is rendered as its ISO 8601 text with the offset it was written with (computed from the literal "
+        "with Python's datetime alone).  "
         "distinct_nontrivial = distinct (tool, input text, argument vector) whose run reached the library (arguments accepted, input loaded).")
 
 HELP_LINE = "Please try --help for more information."
-QUICK = {"get": 2600, "set": 2200, "merge": 1300, "diff": 1500, "validate": 1500, "paths": 1300}
+QUICK = {"get": 2600, "set": 2200, "merge": 1300, "diff": 1500, "validate": 1500, "paths": 1300, "paths-alias": 500, "dates": 500}
 
 
 def _n(tool, tier):
@@ -1383,6 +1394,116 @@ EXPRS = ["=1", "=a", "^a", "$b", "%a", "=~/^[ab]/", ">0", "<2", "!=1", "=2", "=x
 BAD_EXPRS = ["a", "=", "~x", "=~/[/"]
 
 
+ALIAS_OPTS = [None, "-A", "-Y", "-y", "-l", "--anchorsonly", "--allowkeyaliases", "--allowvaluealiases", "--allowaliases"]
+KEYMODE_OPTS = [None, "-k", "-K", "-K", "--keynames", "--onlykeynames"]
+LONG_OPTS = {"--anchorsonly": "-A", "--allowkeyaliases": "-Y", "--allowvaluealiases": "-y", "--allowaliases": "-l",
+             "--keynames": "-k", "--onlykeynames": "-K"}
+# option -> the NAME of the IncludeAliases member it stands for (yaml-paths --help), and what each member means
+ALIAS_MEMBER = {"-A": "ANCHORS_ONLY", "-Y": "INCLUDE_KEY_ALIASES", "-y": "INCLUDE_VALUE_ALIASES", "-l": "INCLUDE_ALL_ALIASES",
+                None: "INCLUDE_KEY_ALIASES"}
+ALIAS_MEANING = {"ANCHORS_ONLY": (False, False), "INCLUDE_KEY_ALIASES": (True, False), "INCLUDE_VALUE_ALIASES": (False, True),
+                 "INCLUDE_ALL_ALIASES": (True, True)}
+AK_NAMES = ["shared_name", "name2", "ab", "other"]
+AK_VALUES = ["shared_value", "first", "second", "1", "a", "ab"]
+AK_EXPRS = ["=shared_name", "^shared", "=name2", "=~/name/", "=ab", "^a", "=shared_value", "$value", "=first", "=~/./", "=1", "%e"]
+
+
+def gen_alias_text(rng, ident):
+    """YAML text of a document that reuses an anchored KEY through an alias (`&kn name: v` ... `*kn : v`) in one to three
+    other mappings (nested ones and list elements included), next to anchored VALUES reused through aliases under keys and
+    in lists, and ordinary keys / values of the same names."""
+    lines = ["---", "id: doc%d" % ident]
+    keys, vals = [], []
+    cnt = [0]
+
+    def value():
+        r = rng.random()
+        if vals and r < 0.3:
+            return "*" + rng.choice(vals)
+        v = rng.choice(AK_VALUES)
+        if r > 0.7 and len(vals) < 3:
+            vals.append("v%d" % len(vals))
+            return "&%s %s" % (vals[-1], v)
+        return v
+
+    def entry(ind, used):
+        r = rng.random()
+        free = [k for k in keys if k[1] not in used]
+        if free and r < 0.5:
+            k = rng.choice(free)
+            used.add(k[1])
+            return "%s*%s : %s" % (ind, k[0], value())
+        names = [n for n in AK_NAMES if n not in used]
+        if not names:
+            cnt[0] += 1
+            names = ["x%d" % cnt[0]]
+        n = rng.choice(names)
+        used.add(n)
+        if r > 0.72 and len(keys) < 2 and n not in [k[1] for k in keys]:
+            keys.append(("k%d" % len(keys), n))
+            return "%s&%s %s: %s" % (ind, keys[-1][0], n, value())
+        return "%s%s: %s" % (ind, n, value())
+    lines.append("anchored:")
+    keys.append(("k0", rng.choice(AK_NAMES[:3])))
+    lines.append("  &k0 %s: %s" % (keys[0][1], value()))
+    used = {keys[0][1]}
+    for _ in range(rng.randint(0, 2)):
+        lines.append(entry("  ", used))
+    for i in range(rng.randint(1, 3)):
+        lines.append("reuse%d:" % i)
+        used = set()
+        for _ in range(rng.randint(1, 3)):
+            lines.append(entry("  ", used))
+        if rng.random() < 0.3:
+            lines.append("  deep:")
+            used = set()
+            for _ in range(rng.randint(1, 2)):
+                lines.append(entry("    ", used))
+    if rng.random() < 0.6:
+        lines.append("list:")
+        for _ in range(rng.randint(1, 3)):
+            if rng.random() < 0.4:
+                used = set()
+                lines.append("  - " + entry("", used))
+            else:
+                lines.append("  - " + value())
+    return "\n".join(lines) + "\n"
+
+
+def gen_paths_alias(rng):
+    """yaml-paths over documents with key aliases: every alias option (short and long form, and none) x key-name mode."""
+    nfiles = rng.choice([1, 1, 2])
+    streams = []
+    for i in range(nfiles):
+        streams.append({"yaml": "".join(gen_alias_text(rng, 10 * i + j) for j in range(rng.choice([1, 1, 2])))})
+    ns = rng.choice([1, 1, 2])
+    search = [rng.choice(AK_EXPRS) for _ in range(ns)]
+    exc = [rng.choice(AK_EXPRS)] if rng.random() < 0.15 else []
+    flags = []
+    km = rng.choice(KEYMODE_OPTS)
+    if km:
+        flags.append(km)
+    ao = rng.choice(ALIAS_OPTS)
+    if ao:
+        flags.append(ao)
+    if rng.random() < 0.2:
+        flags.append("-a")
+    if rng.random() < 0.15:
+        flags.append("-L")
+    if rng.random() < 0.15:
+        flags += ["-t", rng.choice(["fslash", "dot"])]
+    if rng.random() < 0.1:
+        flags.append("-m")
+    y = rng.random()
+    stdin_at, how = None, "files"
+    if y < 0.15:
+        stdin_at, how = rng.randrange(nfiles), "dash"
+    elif y < 0.25:
+        stdin_at, how = nfiles - 1, "implicit"
+    return {"tool": "paths", "streams": streams, "search": search, "exc": exc, "flags": flags, "stdin_at": stdin_at, "how": how,
+            "keys": {"priv": "unset", "pub": "unset"}, "bad": None, "tty": rng.random() < 0.5, "break_at": None, "aliasdoc": True}
+
+
 def gen_paths(rng):
     nfiles = rng.choice([1, 1, 2])
     streams = []
@@ -1442,20 +1563,19 @@ def lib_paths(data, expr, flags):
     if term is None:
         return None
     pathsep = PathSeparators.from_str(flags[flags.index("-t") + 1]) if "-t" in flags else PathSeparators.DOT
+    flags = [LONG_OPTS.get(x, x) for x in flags]
     search_values, search_keys = True, False
     if "-K" in flags:
         search_values, search_keys = False, True
     elif "-k" in flags:
         search_keys = True
-    ika, iva = True, False
-    if "-l" in flags:
-        ika, iva = True, True
-    elif "-Y" in flags:
-        ika, iva = True, False
-    elif "-y" in flags:
-        ika, iva = False, True
-    elif "-A" in flags:
-        ika, iva = False, False
+    # the alias option names a member of IncludeAliases (argparse: the last one given wins); the member is looked up BY NAME
+    # and its meaning taken from the finite table ALIAS_MEANING, never from the value or identity of the enum member
+    given = [x for x in flags if x in ("-A", "-Y", "-y", "-l")]
+    from yamlpath.enums import IncludeAliases
+    name = ALIAS_MEMBER[given[-1] if given else None]
+    IncludeAliases[name]            # KeyError: the member is gone (enum_table_check reports the table itself)
+    ika, iva = ALIAS_MEANING[name]
     proc = EYAMLProcessor(log, None, binary="eyaml")
     proc.data = data
     all_anchors = {}
@@ -1472,9 +1592,12 @@ def prep_paths(case):
     texts = []
     try:
         for i, docs in enumerate(case["streams"]):
-            t = cc.dump_yaml(docs)
-            if len(docs) == 1 and not t.startswith("---"):
-                t = "---\n" + t
+            if isinstance(docs, dict):
+                t = docs["yaml"]                   # documents given as YAML text (key aliases exist in text only)
+            else:
+                t = cc.dump_yaml(docs)
+                if len(docs) == 1 and not t.startswith("---"):
+                    t = "---\n" + t
             if case["break_at"] == i:
                 t += "---\n" + BROKEN_TEXT
             texts.append(t)
@@ -1540,6 +1663,7 @@ def prep_paths(case):
                     continue
                 dj = codec.node_to_json(d, anchors=True)
                 js.append(dj)
+                found = {}
                 for e in case["search"] + case["exc"]:
                     g = ed.guarded(lambda: lib_paths(d, e, case["flags"]), 10.0)
                     if g[0] != "ok":
@@ -1548,8 +1672,14 @@ def prep_paths(case):
                     valid[e] = g[1] is not None
                     if g[1] is not None:
                         find.append([dj, e, g[1]])
-                        if "-L" in case["flags"]:
-                            want_values.append((d, dj, g[1]))
+                        found[e] = g[1]
+                if "-L" in case["flags"]:
+                    # values only of what the tool prints (search results that no --except expression removes), in its order:
+                    # rendering a container as JSON changes the document (a !!set becomes a mapping), so evaluating a path the
+                    # tool never prints would change what a later path resolves to
+                    excepted = set(x for e in case["exc"] for x in found.get(e, []))
+                    for e in case["search"]:
+                        want_values.append((d, dj, [x for x in found.get(e, []) if x not in excepted]))
             if stdin_at == i and how == "implicit":
                 stdin_l = js
             elif bad != "no-input":
@@ -1653,7 +1783,8 @@ def judge_paths(case, f, ctx, answers):
                     ok = False
                     break
         if not ok:
-            f.viol("paths-lines", "%s prints %s; the search results are %s" % (desc, got[:6], want[:6]))
+            f.viol(_pl_sig(case, [x[:3] + [x[3].split(": ")[0]] for x in got], want),
+                   "%s prints %s; the search results are %s" % (desc, got[:6], want[:6]))
             return
         for g, w, ml in zip(got, want, mo["lines"]):
             fi, di = ml[0], ml[1]
@@ -1667,8 +1798,19 @@ def judge_paths(case, f, ctx, answers):
                 f.viol("paths-value", "%s prints value %r for %s; the library's node there is %r" % (desc, shown, w[3], val[1]))
                 return
     elif got != want:
-        f.viol("paths-lines", "%s prints %s; the search results (per document, duplicates dropped, exceptions removed) are %s" % (
+        f.viol(_pl_sig(case, got, want), "%s prints %s; the search results (per document, duplicates dropped, exceptions removed) are %s" % (
             desc, got[:8], want[:8]))
+
+
+def _pl_sig(case, got, want):
+    """Documents with key aliases: say which way the printed results are off and under which alias option."""
+    if not case.get("aliasdoc"):
+        return "paths-lines"
+    g, w = set(json.dumps(x) for x in got), set(json.dumps(x) for x in want)
+    how = "extra-results" if g - w and not w - g else "missing-results" if w - g and not g - w else "other-results"
+    fl = [LONG_OPTS.get(x, x) for x in case["flags"]]
+    given = [x for x in fl if x in ("-A", "-Y", "-y", "-l")]
+    return "paths-lines:key-alias-document:%s:%s" % (ALIAS_MEMBER[given[-1] if given else None], how)
 
 
 def _try_json(t):
@@ -1676,6 +1818,271 @@ def _try_json(t):
         return json.loads(t)
     except ValueError:
         return ("unparsable", t)
+
+
+# =========================================================================== dates and timestamps rendered as JSON (real tools only)
+#
+# Dates / timestamps exist only in documents loaded from YAML TEXT (the canonical documents of the other runs and the Lean
+# model have no such scalars), so this part judges the real tools directly.  A generated document (maps, sequences, flow
+# collections) holds timestamps with a UTC offset (+hh:mm / -hh:mm, with and without fraction, T / t / space separator,
+# anchored and aliased), naive timestamps, dates, words and ints.  Rendered as JSON - yaml-get of a container, yaml-merge
+# -D json (to stdout and to a file), yaml-set on a JSON-style document (file named *.json and '-') - every such scalar must
+# come out as the library's answer for that node: its ISO 8601 text with the offset it was written with (computed here from
+# the literal by Python's datetime alone, no yamlpath code); yaml-get of the timestamp itself prints the same text.
+# Not generated: `Z` and hour-only offsets (`+01`) - the pinned tree prints both without any offset, as a scalar and
+# inside containers alike (Nodes.get_timestamp_with_tzinfo only understands hh:mm); see notes/C16.md.
+
+DJ_OFFSETS = ["-05:00", "+02:00", "+05:30", "-08:00", " +01:00", "-00:30", "+13:45"]
+
+
+def dj_ts(rng, offset):
+    import datetime as dtm
+    y, mo, d = rng.choice([1999, 2001, 2019, 2024]), rng.randint(1, 12), rng.randint(1, 28)
+    h, mi, sec = rng.randint(0, 23), rng.randint(0, 59), rng.randint(0, 59)
+    frac = rng.choice(["", "", ".5", ".10", ".123456"])
+    lit = "%04d-%02d-%02d%s%02d:%02d:%02d%s" % (y, mo, d, rng.choice(["T", "t", " "]), h, mi, sec, frac)
+    val = dtm.datetime(y, mo, d, h, mi, sec, int(frac[1:].ljust(6, "0")) if frac else 0)
+    if offset:
+        off = rng.choice(DJ_OFFSETS)
+        lit += off
+        hh, mm = off.strip()[1:].split(":")
+        minutes = (int(hh) * 60 + int(mm)) * (-1 if off.strip()[0] == "-" else 1)
+        val = val.replace(tzinfo=dtm.timezone(dtm.timedelta(minutes=minutes)))
+    return lit, val.isoformat()
+
+
+def dj_leaf(rng, st):
+    """-> (YAML text, expected JSON value, kind)"""
+    r = rng.random()
+    if st["anchors"] and r < 0.12:
+        name, exp, kind = rng.choice(st["anchors"])
+        return "*" + name, exp, kind
+    if r < 0.45:
+        lit, exp = dj_ts(rng, True)
+        kind = "timestamp-with-offset"
+    elif r < 0.55:
+        lit, exp = dj_ts(rng, False)
+        kind = "naive-timestamp"
+    elif r < 0.7:
+        lit = "%04d-%02d-%02d" % (rng.choice([1999, 2001, 2019]), rng.randint(1, 12), rng.randint(1, 28))
+        exp, kind = lit, "date"
+    elif r < 0.85:
+        lit = rng.choice(["launch", "widget", "a", "x1"])
+        exp, kind = lit, "word"
+    else:
+        exp, kind = rng.randint(0, 300), "int"
+        lit = str(exp)
+    if kind in ("timestamp-with-offset", "date", "naive-timestamp") and rng.random() < 0.15:
+        name = "t%d" % len(st["anchors"])
+        st["anchors"].append((name, exp, kind))
+        lit = "&%s %s" % (name, lit)
+    return lit, exp, kind
+
+
+def dj_node(rng, depth, st, addr):
+    """-> (block lines, flow text, expected data); records containers and scalars with their addresses."""
+    r = rng.random()
+    if depth <= 0 or r < 0.15:
+        lit, exp, kind = dj_leaf(rng, st)
+        st["scalars"].append((list(addr), exp, kind))
+        return None, lit, exp
+    if r < 0.75:
+        lines, flow, exp = [], [], {}
+        for _ in range(rng.randint(2, 4)):
+            st["n"] += 1
+            k = "k%d" % st["n"]
+            cl, cf, ce = dj_node(rng, depth - 1 if rng.random() < 0.6 else 0, st, addr + [k])
+            exp[k] = ce
+            flow.append("%s: %s" % (k, cf))
+            if cl is None or rng.random() < 0.2:
+                lines.append("%s: %s" % (k, cf))
+            else:
+                lines.append("%s:" % k)
+                lines += ["  " + x for x in cl]
+        st["containers"].append((list(addr), exp))
+        return lines, "{" + ", ".join(flow) + "}", exp
+    lines, flow, exp = [], [], []
+    for i in range(rng.randint(1, 3)):
+        _cl, cf, ce = dj_node(rng, depth - 1 if rng.random() < 0.3 else 0, st, addr + [i])
+        exp.append(ce)
+        flow.append(cf)
+        lines.append("- " + cf)
+    st["containers"].append((list(addr), exp))
+    return lines, "[" + ", ".join(flow) + "]", exp
+
+
+def dj_path(addr):
+    out = ""
+    for a in addr:
+        out += "[%d]" % a if isinstance(a, int) else ("." if out else "") + a
+    return out or "/"
+
+
+def gen_dates(rng):
+    while True:
+        st = {"anchors": [], "scalars": [], "containers": [], "n": 0}
+        lines, flow, exp = [], [], {}
+        for _ in range(rng.randint(2, 4)):
+            st["n"] += 1
+            k = "k%d" % st["n"]
+            cl, cf, ce = dj_node(rng, 2, st, [k])
+            exp[k] = ce
+            flow.append("%s: %s" % (k, cf))
+            if cl is None:
+                lines.append("%s: %s" % (k, cf))
+            else:
+                lines.append("%s:" % k)
+                lines += ["  " + x for x in cl]
+        st["containers"].append(([], exp))
+        if any(k == "timestamp-with-offset" for _a, _e, k in st["scalars"]):
+            break
+    mode = rng.choice(["get", "get", "merge", "set"])
+    case = {"tool": "dates", "mode": mode, "yaml": "---\n" + "\n".join(lines) + "\n", "flow": "{" + ", ".join(flow) + "}\n",
+            "expected": exp, "delivery": rng.choice(["file", "file", "dash"])}
+    if mode == "get":
+        holders = [c for c in st["containers"] if "T" in json.dumps(c[1])]
+        c = rng.choice(holders or st["containers"])
+        case["query"], case["qexp"] = dj_path(c[0]), c[1]
+        tss = [x for x in st["scalars"] if x[2] in ("timestamp-with-offset", "date", "naive-timestamp")]
+        x = rng.choice(tss)
+        case["squery"], case["sexp"], case["skind"] = dj_path(x[0]), x[1], x[2]
+    elif mode == "merge":
+        case["to_file"] = rng.random() < 0.3
+        case["alone"] = rng.random() < 0.25
+    else:
+        plain = [x for x in st["scalars"] if x[2] in ("word", "int")]
+        if not plain:
+            case["mode"], c = "get", st["containers"][-1]
+            case["query"], case["qexp"] = "/", c[1]
+            x = [x for x in st["scalars"] if x[2] == "timestamp-with-offset"][0]
+            case["squery"], case["sexp"], case["skind"] = dj_path(x[0]), x[1], x[2]
+        else:
+            x = rng.choice(plain)
+            case["target"], case["change"] = x[0], dj_path(x[0])
+    return case
+
+
+def dj_kind(v):
+    if isinstance(v, str) and re.match(r"^\d{4}-\d\d-\d\d$", v):
+        return "date"
+    if isinstance(v, str) and re.match(r"^\d{4}-\d\d-\d\dT\d\d:\d\d:\d\d(\.\d+)?[-+]\d\d:\d\d$", v):
+        return "timestamp-with-offset"
+    if isinstance(v, str) and re.match(r"^\d{4}-\d\d-\d\dT\d\d:\d\d:\d\d(\.\d+)?$", v):
+        return "naive-timestamp"
+    return "other"
+
+
+def dj_diff(want, got, where=""):
+    """First leaf on which the JSON data differ -> (kind of the expected leaf, text) | None"""
+    if isinstance(want, dict) and isinstance(got, dict):
+        if set(want) != set(got):
+            return "keys", "%s: keys %s, printed %s" % (where or "/", sorted(want), sorted(got))
+        for k in want:
+            d = dj_diff(want[k], got[k], (where + "." if where else "") + str(k))
+            if d:
+                return d
+        return None
+    if isinstance(want, list) and isinstance(got, list):
+        if len(want) != len(got):
+            return "length", "%s: %d items, printed %d" % (where or "/", len(want), len(got))
+        for i, (a, b) in enumerate(zip(want, got)):
+            d = dj_diff(a, b, "%s[%d]" % (where, i))
+            if d:
+                return d
+        return None
+    if want == got and type(want) is type(got):
+        return None
+    return dj_kind(want), "%s is %s, rendered as %s" % (where or "/", json.dumps(want), json.dumps(got))
+
+
+def prep_dates(case):
+    """Runs and judges in one go (no Lean model behind this part)."""
+    f = F()
+    mode, exp = case["mode"], case["expected"]
+    pid = os.getpid()
+
+    def judged_json(sig, desc, text, want):
+        try:
+            got = json.loads(text)
+        except ValueError:
+            f.viol("dates-json:%s:output-is-not-json" % sig, "%s prints %r" % (desc, text[:200]))
+            return
+        d = dj_diff(want, got)
+        if d:
+            f.viol("dates-json:%s:%s-differs" % (sig, d[0]), "%s: %s (the ISO 8601 text of the node as written, offset included, is the "
+                   "library's answer for it: yaml-get of the scalar alone prints it); output %s" % (desc, d[1], text[:400]))
+
+    def ran(r, desc, sig):
+        if r.get("timeout"):
+            f.viol("timeout:dates", desc + " did not finish")
+            return False
+        if "crash" in r:
+            f.viol("dates-json:%s:uncaught-%s@%s" % (sig, r["crash"], r.get("site")), "%s lets %s escape" % (desc, r["crash"]))
+            return False
+        if r["rc"] != 0:
+            f.viol("dates-json:%s:exit=%d" % (sig, r["rc"]), "%s exits %d: %s" % (desc, r["rc"], r.get("err", "")[-200:]))
+            return False
+        return True
+    f.count("dates:" + mode)
+    if mode == "get":
+        path = write_file("dates-%d.yaml" % pid, case["yaml"])
+        for q, want, sig in ((case["query"], case["qexp"], "get-container"), (case["squery"], case["sexp"], "get-scalar")):
+            if case["delivery"] == "dash":
+                r = run_tool(case, "get", ["-p", q, "-"], case["yaml"], False)
+            else:
+                r = run_tool(case, "get", ["-p", q, path], "", True)
+            desc = "yaml-get -p %s on %s" % (q, _show(case["yaml"], 400))
+            if not ran(r, desc, sig):
+                continue
+            lines = out_lines(r["out"])
+            if sig == "get-container":
+                if len(lines) != 1:
+                    f.viol("dates-json:get-container:lines", "%s prints %d lines" % (desc, len(lines)))
+                else:
+                    judged_json(sig, desc, lines[0], want)
+            elif lines != [str(want)]:
+                f.viol("dates-json:get-scalar:%s-differs" % case["skind"], "%s prints %r, the node is %s" % (desc, lines[:3], want))
+        rm(path)
+    elif mode == "merge":
+        path = write_file("dates-%d.yaml" % pid, case["yaml"])
+        rhs = write_file("dates-rhs-%d.yaml" % pid, "---\nzz_extra: 1\n")
+        outp = os.path.join(cc.tmpdir(), "dates-out-%d.json" % pid)
+        rm(outp)
+        want = dict(exp) if case["alone"] else dict(exp, zz_extra=1)
+        argv = ["-S", "-D", "json"] + (["-o", outp] if case["to_file"] else [])
+        if case["delivery"] == "dash" and not case["alone"]:
+            argv, stdin_text = [a for a in argv if a != "-S"] + [path, "-"], "---\nzz_extra: 1\n"
+        else:
+            argv, stdin_text = argv + [path] + ([] if case["alone"] else [rhs]), ""
+        r = run_tool(case, "merge", argv, stdin_text, not stdin_text)
+        desc = "yaml-merge %s with LHS %s" % (" ".join(os.path.basename(a) if a.startswith("/") else a for a in argv), _show(case["yaml"], 400))
+        if ran(r, desc, "merge"):
+            text = read_file(outp) if case["to_file"] else r["out"]
+            judged_json("merge", desc, text or "", want)
+        rm(path, rhs, outp)
+    else:
+        import copy
+        want = copy.deepcopy(exp)
+        node = want
+        for a in case["target"][:-1]:
+            node = node[a]
+        node[case["target"][-1]] = 7
+        path = write_file("dates-%d.json" % pid, case["flow"])
+        if case["delivery"] == "dash":
+            r = run_tool(case, "set", ["-g", case["change"], "-a", "7", "-"], case["flow"], False)
+        else:
+            r = run_tool(case, "set", ["-g", case["change"], "-a", "7", path], "", True)
+        desc = "yaml-set -g %s -a 7 on the JSON-style document %s [%s]" % (case["change"], _show(case["flow"], 400), case["delivery"])
+        if ran(r, desc, "set"):
+            text = r["out"] if case["delivery"] == "dash" else read_file(path)
+            judged_json("set", desc, text or "", want)
+        rm(path, path + ".bak")
+    f.nontrivial = ("dates", mode, case["yaml"], case.get("query"), case.get("change"), case["delivery"])
+    return f, None, None
+
+
+def judge_dates(case, f, ctx, answers):
+    return
 
 
 # =========================================================================== dispatcher
@@ -1693,6 +2100,7 @@ register("merge", gen_merge, prep_merge, judge_merge)
 register("diff", gen_diff, prep_diff, judge_diff)
 register("validate", gen_validate, prep_validate, judge_validate)
 register("paths", gen_paths, prep_paths, judge_paths)
+register("dates", gen_dates, prep_dates, judge_dates)
 
 
 def run_chunk(job):
@@ -1751,7 +2159,36 @@ def gen_cases(seed, tier, only=None):
             c = TOOLS[tool][0](rng)
             c["sub"] = rng.random() < (0.012 if tier == "quick" else 0.004)
             cases.append(c)
+        if tool == "paths":
+            # documents with key aliases x alias options: a stream of their own (the cases above stay what they were per seed)
+            rng = random.Random("%s:paths-alias" % seed)
+            for i in range(_n("paths-alias", tier)):
+                c = gen_paths_alias(rng)
+                c["sub"] = rng.random() < (0.012 if tier == "quick" else 0.004)
+                cases.append(c)
     return cases
+
+
+def enum_table_check(chk):
+    """The finite table behind yaml-paths' alias options: IncludeAliases has exactly the four documented members and they are
+    pairwise distinct (an Enum member defined with the value of another one silently becomes an ALIAS of it: `-y` would then
+    select what `-l` selects)."""
+    from yamlpath.enums import IncludeAliases
+    chk.evaluations += 1
+    canonical = [m.name for m in IncludeAliases]                       # aliases are not listed here
+    members = {n: m.name for n, m in IncludeAliases.__members__.items()}   # name -> canonical name it resolves to
+    case = {"tool": "enum-table", "enum": "IncludeAliases", "members": members}
+    want = sorted(ALIAS_MEANING)
+    if sorted(members) != want:
+        chk.violation("enum-table:IncludeAliases:member-names", "IncludeAliases has the members %s, yaml-paths' options need exactly %s" % (
+            sorted(members), want), case)
+        return
+    same = sorted(n for n, c in members.items() if n != c)
+    if same or sorted(canonical) != want:
+        chk.violation("enum-table:IncludeAliases:members-not-distinct",
+                      "IncludeAliases members are not pairwise distinct: %s (name -> member it is): the alias options of yaml-paths "
+                      "that name them cannot be told apart" % ", ".join("%s -> %s" % (n, members[n]) for n in same), case)
+    chk.extra_cov["enum_table"] = "IncludeAliases: %d members, pairwise distinct" % len(canonical)
 
 
 def run(chk: core.Check):
@@ -1761,8 +2198,14 @@ def run(chk: core.Check):
     if chk.replay_in:
         rp = json.load(open(chk.replay_in))
         cases = [rp.get("case", rp)]
+        if cases[0].get("tool") == "enum-table":
+            enum_table_check(chk)
+            print("replay:", json.dumps(chk.violations[:1])[:600])
+            return chk
         jobs = [cases]
     else:
+        if not only or "paths" in only:
+            enum_table_check(chk)
         cases = CORPUS_CASES() + gen_cases(chk.seed, chk.tier, only)
         random.Random(chk.seed).shuffle(cases)
         jobs = core.chunked(cases, 64)
